@@ -179,9 +179,23 @@ func (f *crashFam) Gen(r *hx.Run) {
 					r.Do("sub " + b.name)
 				}
 			default:
-				res := r.Do(fmt.Sprintf("crash %s %d", b.name, k))
+				var res string
+				if r.Rng.Bool() {
+					// further crashes inside recoverStore during the following starts
+					var rs []string
+					for j := 1 + r.Rng.Intn(3); j > 0; j-- {
+						rs = append(rs, fmt.Sprint(r.Rng.Intn(3)))
+					}
+					res = r.Do(fmt.Sprintf("crashr %s %d %s", b.name, k, strings.Join(rs, ",")))
+					if f := strings.Fields(res); len(f) > 2 && f[0] == "crashed" {
+						r.Hist("crashr.k" + fmt.Sprint(k) + "." + f[1])
+						sig += "/rec:" + strings.Join(rs, "") + ":" + f[1]
+					}
+				} else {
+					res = r.Do(fmt.Sprintf("crash %s %d", b.name, k))
+				}
 				r.Hist("crash.k" + fmt.Sprint(k))
-				if strings.HasPrefix(res, "crashed ok") {
+				if strings.HasPrefix(res, "crashed") && strings.Contains(res, " ok ") {
 					r.Nontrivial(sig)
 				}
 				if k == 0 {
@@ -303,7 +317,7 @@ func (f *growFam) Gen(r *hx.Run) {
 				b := g.next(2)
 				h := len(g.hashes)
 				muts := []string{"height+1", "stale-other", "unknown-parent", "parent-tip-1", "ts-equal", "ts-earlier", "root-flip", "root-short", "root-zero", "stateroot", "nosigs", "height+2",
-					"ts-boundary", "ts-boundary", "ts-half-range"}
+					"ts-boundary", "ts-boundary", "ts-half-range", "bad-payload"}
 				kind = muts[r.Rng.Intn(len(muts))]
 				p = path()
 				arg := ""
@@ -350,6 +364,8 @@ func (f *growFam) Gen(r *hx.Run) {
 					p, arg = "add", " badroot"
 				case "nosigs":
 					b.sigs = nil
+				case "bad-payload":
+					b.badPayload = true
 				}
 				if f.maybeCfg(r, g, b) {
 					kind += "+cfg"
@@ -687,6 +703,16 @@ func (f *quorumFam) headersAt(r *hx.Run, g *chainGen, n int, hh uint32) {
 		}, setTok)
 	}
 	all := g.set
+	try("malformed-payload-full-quorum", func(b *blockSpec) { signSub(b, all); b.badPayload = true }, setTok)
+	try("malformed-payload-exact-quorum", func(b *blockSpec) {
+		signSub(b, r.Rng.Perm(n)[:m])
+		b.badPayload = true
+	}, setTok)
+	try("malformed-payload-bad-signature", func(b *blockSpec) {
+		signSub(b, all)
+		b.sigs[0] = "w" + b.sigs[0][1:]
+		b.badPayload = true
+	}, setTok)
 	try("unknown-parent", func(b *blockSpec) { signSub(b, all); b.prev[5] ^= 1 }, setTok)
 	try("ts-equal", func(b *blockSpec) { signSub(b, all); b.ts = g.tss[0] }, setTok)
 	try("ts-earlier", func(b *blockSpec) { signSub(b, all); b.ts = g.tss[0] - 1 }, setTok)
@@ -703,6 +729,14 @@ func posClass(pos, m int) string {
 
 // handover: blocks that announce a new validator set, then blocks / headers signed by the old and the new set.
 func (f *quorumFam) handover(r *hx.Run, g *chainGen, n int) {
+	for _, op := range []string{"hdr", "add", "sub"} {
+		mp := g.next(1)
+		mp.name += "mp" + op
+		mp.badPayload = true
+		g.def(mp)
+		res := r.Do(op + " " + mp.name)
+		r.Nontrivial(fmt.Sprintf("malformed-payload/n%d/%s/%s", n, op, verdictOf(res)))
+	}
 	for step := 0; step < 3; step++ {
 		old := append([]int{}, g.set...)
 		// new set: rotate by one, grow or shrink
